@@ -135,6 +135,11 @@ func retDeepEq(a, b model.TRet) bool {
 }
 
 func runC14(c *Ctx) {
+	// a logger that formats its arguments like any real one (the tracker logs from inside its critical sections), and
+	// a watch that ends the worker with a proof when one of its own calls into the tracker never returns
+	formatted := rig.InstallFormattingLogger()
+	defer func() { c.R.Count("log_records_formatted", formatted()) }()
+	c.WatchTrackerCalls("c14")
 	switch c.Arg("mode", "") {
 	case "alias":
 		runC14Alias(c)
